@@ -69,6 +69,9 @@ func runDispCase(fetch, reg, dl, beh, cancelAt, cdl string) string {
 	switch dl {
 	case "past":
 		deadline = option.Some(time.Now().Add(-time.Hour))
+	case "zero":
+		// present, and the zero time.Time (an unset field that went through JSON / NormalizeTime): long past
+		deadline = option.Some(time.Time{})
 	case "future":
 		deadline = option.Some(time.Now().Add(40 * time.Millisecond))
 	}
@@ -245,7 +248,7 @@ func cmdDisp(args []string) {
 	} else {
 		for _, f := range []string{"ok", "err"} {
 			for _, r := range []string{"1", "0"} {
-				for _, dl := range []string{"none", "past", "future"} {
+				for _, dl := range []string{"none", "past", "zero", "future"} {
 					for _, b := range []string{"nil", "err", "panic", "panicerr", "block"} {
 						for _, ca := range []string{"never", "before", "waiting", "fetch", "running"} {
 							if b == "block" && ca != "running" && dl == "none" {
